@@ -91,3 +91,7 @@ func (t *VerifMemConn) ReadPacket() ([]byte, error) { return t.readPacket() }
 func (t *VerifMemConn) prepareKeyChange(*NegotiatedAlgorithms, *kexResult) error { return nil }
 func (t *VerifMemConn) setStrictMode() error                                     { return nil }
 func (t *VerifMemConn) setInitialKEXDone()                                       {}
+
+// verifWaitIdle parks the calling harness goroutine until no other goroutine can make
+// progress. The instrumenter rewrites calls to it into the scheduler primitive WaitIdle.
+func verifWaitIdle() {}
